@@ -20,10 +20,11 @@ def run(args, prop="C01", backends=("vm",)):
     rnd = random.Random(C.seed())
     rep.cov["rule"] = ("program families written as spec ASTs: every (operator, operand type) with boundary-ish small "
                        "operands, scoping/sharing/snapshot/branch-value/call templates, control nestings, seeded random "
-                       "well-typed programs; HmsSem (TLC) computes the expected output and outcome of each; "
-                       "non-trivial = distinct program texts executed")
+                       "well-typed programs, threads joined for their results (pure functions); HmsSem (TLC) computes the expected output and outcome "
+                       "of each; 64-bit integer boundaries incl. powers from HmsInt64; comparisons and arithmetic over nan / infinities / signed "
+                       "zeros from HmsFloat; non-trivial = distinct program texts executed")
     rep.assumptions = ["integers stay below 2^30 in HmsSem (64-bit boundary arithmetic is HmsInt64's family)",
-                       "floats are dyadic rationals; other float results are not decided",
+                       "floats are dyadic rationals in HmsSem; nan, infinities and signed zeros are HmsFloat's family; other float results are not decided",
                        "a function literal uses the variables of its surroundings by reference (lexical scoping)"]
     progs = programs(thorough, C.seed(), rnd)
     pool = C.Pool(C.build_worker())
